@@ -242,7 +242,7 @@ func TestVerifDecodeSearch(t *testing.T) {
 	}
 	junk := []string{"E:H", "RL:X", "MAV:N", "CR:X", "MI:N", "XX:N", "AVN", "AV:", ":N", "AV:N:X", "", "AV:\xff", "Au:N", "CDP:H", "av:n", "AV:N ", "CVSS:3.1", "CVSS:2.0"}
 	cands := vrCandidates(valid, junk)
-	for _, pre := range []string{"CVSS:3.1", "CVSS:3.0", "CVSS:2.0", "CVSS:3.2", "cvss:3.1", "CVSS3.1", "CVSS:", "CVSS:3.1:1", "CVSS", "XVSS:3.1", " CVSS:3.1", "CVSS:3.1 "} {
+	for _, pre := range []string{"CVSS:3.1", "CVSS:3.0", "CVSS:2.0", "CVSS:3.2", "cvss:3.1", "CVSS3.1", "CVSS:", "CVSS:3.1:1", "CVSS", "XVSS:3.1", " CVSS:3.1", "CVSS:3.1 ", "CVSS:3.1.0", "CVSS:3.0.1", "CVSS:3.1.", "CVSS:3.10", "CVSS:03.1", "CVSS:3.01"} {
 		cands = append(cands, pre+"/AV:N/AC:L/PR:N/UI:N/S:U/C:H/I:H/A:H", pre)
 	}
 	n := 0
